@@ -12,6 +12,18 @@
      RawSeek       fill.Seek(...) on the sink            (error returned)
      RawWrite n    fill.Write(x.value) on the sink       (error returned)
      FinalFlush    the Flush of Writer.Close             (error returned)
+   and, for Writer.Get (a read-back of an object already in the file, also
+   reached from OpenStream when /Filter or /DecodeParms is a reference):
+     FlushReturned `err = w.w.w.Flush(); if err != nil { return nil, err }`
+     RawSeek       r.Seek(0, SeekCurrent), r.Seek(pos, SeekStart) and the deferred
+                   r.Seek(savedPos, SeekStart) whose error becomes the result if
+                   there is no earlier one
+     RawRead n     the scanner reading the sink (io.Reader)
+     RawReadAt n   stream bodies and endstream probes (io.ReaderAt)
+   The property is about failing Write and Seek calls: the fault index counts
+   those; Read and ReadAt calls are logged but never fail in the model (what a
+   failing read of a read-back may do is the subject of ErrFlow.v: the call
+   returns the error, or - a read-ahead nobody needed - the same result).
    run against a sink whose k-th call (Write or Seek) fails.
    Definitions only; proofs in SinkProofs.v. *)
 From Coq Require Import List NArith Bool.
@@ -22,14 +34,16 @@ Local Open Scope N_scope.
 
 Definition bufio_size : N := 4096.   (* bufio.defaultBufSize, used by bufio.NewWriter *)
 
-Inductive sop := BWrite (n : N) | FlushIgnored | RawSeek | RawWrite (n : N) | FinalFlush.
+Inductive sop :=
+| BWrite (n : N) | FlushIgnored | RawSeek | RawWrite (n : N) | FinalFlush
+| FlushReturned | RawRead (n : N) | RawReadAt (n : N).
 
-Inductive scall := CWrite (n : N) | CSeek.
+Inductive scall := CWrite (n : N) | CSeek | CRead (n : N) | CReadAt (n : N).
 
 Record wst := mkW {
   buffered : N;          (* bufio.Writer.n *)
   berr : option N;       (* bufio.Writer.err - sticky *)
-  scalls : nat;          (* calls made on the sink *)
+  scalls : nat;          (* Write and Seek calls made on the sink *)
   sfired : bool;
   slog : list scall      (* the calls, most recent first *)
 }.
@@ -43,6 +57,10 @@ Definition sink_call (f : option fault) (c : scall) (s : wst) : option N * wst :
   | Some e => (Some e, mkW (buffered s) (berr s) n true (c :: slog s))
   | None => (None, mkW (buffered s) (berr s) n (sfired s) (c :: slog s))
   end.
+
+(* a Read / ReadAt of a read-back: logged, outside the fault index *)
+Definition sink_read (c : scall) (s : wst) : option N * wst :=
+  (None, mkW (buffered s) (berr s) (scalls s) (sfired s) (c :: slog s)).
 
 Definition set_buf (s : wst) (b : N) : wst := mkW b (berr s) (scalls s) (sfired s) (slog s).
 Definition set_berr (s : wst) (e : N) : wst := mkW (buffered s) (Some e) (scalls s) (sfired s) (slog s).
@@ -99,6 +117,9 @@ Definition step (f : option fault) (op : sop) (s : wst) : option N * wst :=
   | FinalFlush => bufio_flush f s
   | RawSeek => sink_call f CSeek s
   | RawWrite n => sink_call f (CWrite n) s
+  | FlushReturned => bufio_flush f s
+  | RawRead n => sink_read (CRead n) s
+  | RawReadAt n => sink_read (CReadAt n) s
   end.
 
 Fixpoint run_ops (f : option fault) (ops : list sop) (s : wst) : list (option N) * wst :=
@@ -117,7 +138,7 @@ Definition is_raw (op : sop) : bool :=
 
 (* operations that go through the bufio.Writer and report its state *)
 Definition is_buffered_report (op : sop) : bool :=
-  match op with BWrite _ | FinalFlush => true | _ => false end.
+  match op with BWrite _ | FinalFlush | FlushReturned => true | _ => false end.
 
 Fixpoint raw_reported (e : N) (ops : list sop) (rs : list (option N)) : bool :=
   match ops, rs with
@@ -125,6 +146,11 @@ Fixpoint raw_reported (e : N) (ops : list sop) (rs : list (option N)) : bool :=
       (is_raw op && match r with Some x => N.eqb x e | None => false end) || raw_reported e ops' rs'
   | _, _ => false
   end.
+
+(* Writer.Get of an object outside object streams: flush, remember the position,
+   seek to the object, read, seek back *)
+Definition read_back (reads : list N) : list sop :=
+  [FlushReturned; RawSeek; RawSeek] ++ map RawRead reads ++ [RawSeek].
 
 (* ---- entry points for the correspondence run -------------------------- *)
 
